@@ -191,7 +191,7 @@ def run_tlc_model(mod, cfg_text, workdir, workers=8, timeout=1800, tag=None):
     return cases, stats
 
 
-def get_base():
+def _get_base_once():
     """The sentinel state of MC_Step, printed by TLC once and cached by content hash of the module."""
     ensure_links()
     h = hashlib.sha1(open(os.path.join(MC, "MC_Step.tla"), "rb").read() + open(os.path.join(SPEC, "PushState.tla"), "rb").read()).hexdigest()[:12]
@@ -224,7 +224,7 @@ def get_base():
     raise ToolError("could not obtain Base from TLC:\n" + r.stdout[-2000:])
 
 
-def spec_registry():
+def _spec_registry_once():
     """The instruction names the specification gives a meaning to (PushMatch.Registry), printed by TLC once and cached
     by the content hash of the specification modules."""
     ensure_links()
@@ -238,9 +238,11 @@ def spec_registry():
     os.makedirs(os.path.join(VERIF, "out"), exist_ok=True)
     mod = "MCreg_%d" % os.getpid()
     with open(os.path.join(MC, mod + ".tla"), "w") as f:
-        f.write('---- MODULE %s ----\nEXTENDS PushMatch, Json, TLC\nASSUME PrintT("REG " \\o ToJson(SetAsSeq(Registry)))\n====\n' % mod)
+        # (evaluated in Next, on a worker thread: TLC evaluates ASSUMEs on its main thread, whose stack -Xss does not enlarge)
+        f.write('---- MODULE %s ----\nEXTENDS PushMatch, Json, TLC\nVARIABLE x\nInit == x = 0\n'
+                'Next == x = 0 /\\ PrintT("REG " \\o ToJson(SetAsSeq(Registry))) /\\ x\' = 1\n====\n' % mod)
     cfg = os.path.join(VERIF, "out", mod + ".cfg")
-    open(cfg, "w").write("")
+    open(cfg, "w").write("INIT Init\nNEXT Next\nCHECK_DEADLOCK FALSE\n")
     r = run(["timeout", "300", "tlc", "-workers", "1", "-config", cfg, "-metadir", os.path.join(VERIF, "out", "states_" + mod),
              "-cleanup", "-noGenerateSpecTE", mod + ".tla"], cwd=MC, env=tlc_env())
     for f in (os.path.join(MC, mod + ".tla"), cfg):
@@ -257,6 +259,23 @@ def spec_registry():
             os.replace(tmp, cache)
             return reg
     raise ToolError("could not obtain Registry from TLC:\n" + r.stdout[-2000:])
+
+
+def _twice(f):
+    """One retry for the two small TLC runs every check starts with (a JVM hiccup there must not cost the whole check)."""
+    try:
+        return f()
+    except ToolError:
+        time.sleep(2)
+        return f()
+
+
+def get_base():
+    return _twice(_get_base_once)
+
+
+def spec_registry():
+    return _twice(_spec_registry_once)
 
 
 def expand_cases(cases, base, prefix):
